@@ -106,6 +106,82 @@ def walk_chunks(data):
     return None
 
 
+def _iff(tag, payload, be):
+    return tag + struct.pack(">I" if be else "<I", len(payload)) + payload + (b"\0" if len(payload) & 1 else b"")
+
+
+def foreign_chunks(be):
+    """chunks that real-world files carry but the library's own writers never (or rarely) emit, so that mutated seeds reach the
+    parser branches for them: AIFF INST/MARK/COMT/APPL/basc/NAME…, WAV cue/smpl/acid/LIST-adtl/DISP/PAD/exif/bext…"""
+    e = ">" if be else "<"
+    out = []
+    if be:      # AIFF family
+        out.append(_iff(b"INST", struct.pack(">bbbbbbhhhhhhh", 60, 0, 0, 127, 0, 127, 0, 1, 1, 2, 0, 0, 0), True))
+        out.append(_iff(b"MARK", struct.pack(">H", 1) + struct.pack(">HI", 1, 0) + b"\x01a", True))
+        out.append(_iff(b"MARK", struct.pack(">H", 3000) + struct.pack(">HI", 1, 0) + b"\x01a", True))
+        out.append(_iff(b"MARK", struct.pack(">H", 2) + struct.pack(">HI", 1, 0) + b"\x05abcde" + struct.pack(">HI", 2, 3) + b"\x00\x00", True))
+        out.append(_iff(b"COMT", struct.pack(">H", 1) + struct.pack(">IHH", 0, 0, 4) + b"note", True))
+        out.append(_iff(b"APPL", b"m3ga" + b"libsndfile-fuzz", True))
+        out.append(_iff(b"basc", struct.pack(">IIHHHHHH", 1, 8, 60, 0, 4, 4, 2, 0) + bytes(66), True))
+        out.append(_iff(b"NAME", b"title", True))
+        out.append(_iff(b"AUTH", b"x" * 300, True))
+        out.append(_iff(b"(c) ", b"c" * 31, True))
+        out.append(_iff(b"ANNO", b"", True))
+        out.append(_iff(b"CHAN", struct.pack(">III", 0x650002, 0, 0), True))
+        out.append(_iff(b"PEAK", struct.pack(">II", 1, 0) + struct.pack(">fI", 1.0, 0) * 2, True))
+        out.append(_iff(b"FVER", struct.pack(">I", 0xA2805140), True))
+    else:       # RIFF family
+        out.append(_iff(b"cue ", struct.pack("<I", 2) + struct.pack("<II4sIII", 1, 0, b"data", 0, 0, 0) + struct.pack("<II4sIII", 2, 5, b"data", 0, 0, 5), False))
+        out.append(_iff(b"cue ", struct.pack("<I", 3000) + struct.pack("<II4sIII", 1, 0, b"data", 0, 0, 0), False))
+        out.append(_iff(b"smpl", struct.pack("<9I", 0, 0, 22675, 60, 0, 0, 0, 1, 0) + struct.pack("<6I", 0, 0, 0, 10, 0, 0), False))
+        out.append(_iff(b"smpl", struct.pack("<9I", 0, 0, 22675, 60, 0, 0, 0, 70, 0) + struct.pack("<6I", 0, 0, 0, 10, 0, 0), False))
+        out.append(_iff(b"acid", struct.pack("<IHHfHHHf", 1, 60, 0x8000, 0.0, 4, 4, 4, 120.0), False))
+        out.append(_iff(b"LIST", b"adtl" + _iff(b"labl", struct.pack("<I", 1) + b"mark one\0", False) + _iff(b"note", struct.pack("<I", 2) + b"n", False)
+                        + _iff(b"ltxt", struct.pack("<IIIHHHH", 1, 10, 0x72676E20, 0, 0, 0, 0), False), False))
+        out.append(_iff(b"LIST", b"INFO" + _iff(b"INAM", b"t" * 2100, False), False))
+        out.append(_iff(b"DISP", struct.pack("<I", 1) + b"display", False))
+        out.append(_iff(b"PAD ", bytes(40), False))
+        out.append(_iff(b"exif", _iff(b"ever", b"0230", False), False))
+        out.append(_iff(b"PEAK", struct.pack("<II", 1, 0) + struct.pack("<fI", 1.0, 0) * 2, False))
+        out.append(_iff(b"fact", struct.pack("<I", 7), False))
+        out.append(_iff(b"bext", bytes(602) + b"A=PCM\r\n", False))
+        out.append(_iff(b"cart", b"0101" + bytes(2044) + b"tag", False))
+        out.append(_iff(b"ds64", struct.pack("<QQQI", 100, 50, 25, 0), False))
+    return out
+
+
+def interaction_files(seed_bytes, limit=800):
+    """systematic cross-chunk interactions: every ordered pair and triple of 'stateful' foreign chunks (chunks with counts, chunks the
+    reader combines after the chunk loop, chunks whose second occurrence replaces the first) inserted before the audio chunk of one seed
+    file. Returns a list of (label, bytes)."""
+    ch = walk_chunks(seed_bytes)
+    if not ch or not ch[1] or seed_bytes[:4] not in (b"RIFF", b"RIFX", b"FORM"):
+        return []
+    h, cl = ch
+    be = seed_bytes[:4] in (b"RIFX", b"FORM")
+    dic = foreign_chunks(be)
+    keep = ([0, 1, 2, 3, 4, 6, 12] if be else [0, 1, 2, 3, 4, 5, 10, 11, 12, 13])      # stateful ones
+    dic = [dic[i] for i in keep if i < len(dic)]
+    audio = b"SSND" if seed_bytes[:4] == b"FORM" else b"data"
+    k = next((i for i, (a, b) in enumerate(cl) if seed_bytes[a:a + 4] == audio), len(cl))
+    head = seed_bytes[:cl[k][0]] if k < len(cl) else seed_bytes
+    rest = seed_bytes[cl[k][0]:] if k < len(cl) else b""
+    out = []
+    n = len(dic)
+    for i in range(n):
+        for j in range(n):
+            out.append(("pair-%d-%d" % (i, j), head + dic[i] + dic[j] + rest))
+            out.append(("pairT-%d-%d" % (i, j), head + dic[i] + rest + dic[j]))
+    for i in range(n):
+        for j in range(n):
+            for l in range(n):
+                out.append(("triple-%d-%d-%d" % (i, j, l), head + dic[i] + dic[j] + dic[l] + rest))
+    if len(out) > limit:
+        step = len(out) / float(limit)
+        out = [out[int(x * step)] for x in range(limit)]
+    return out
+
+
 LEN_SUBST32 = [0, 1, 0x7FFFFFFF, 0xFFFFFFFF, 0x80000000, 0xFFFFFFFE, 0x7FFFFFFE]
 SUBST16 = [0, 1, 2, 0xFFFF, 0x7FFF, 0x8000, 0x401, 0x400, 3]
 
@@ -157,7 +233,9 @@ class Mutator:
         r = self.rng
         d = bytearray(self.seed)
         n = len(d)
-        kind = r.choice(["len32", "len32", "taglen", "taglen", "taglen", "f16", "f16", "trunc", "trunc", "flip", "flip", "chunk", "magic", "multi", "splice"])
+        kind = r.choice(["len32", "len32", "taglen", "taglen", "taglen", "f16", "f16", "trunc", "trunc", "flip", "flip", "chunk", "magic", "multi", "splice", "foreign"])
+        if kind == "foreign" and not (self.chunks and self.chunks[1] and self.seed[:4] in (b"RIFF", b"RIFX", b"RF64", b"FORM")):
+            kind = "chunk"
         if kind == "taglen" and not self.tagged:
             kind = "len32"
         if kind == "len32" and self.f32:
@@ -200,6 +278,19 @@ class Mutator:
                 parts.pop(r.randrange(len(parts)))
             else:
                 parts.reverse()
+            d = bytearray(bytes(d[:h]) + b"".join(parts) + tail)
+        elif kind == "foreign":
+            # insert 1-3 chunks the library's writers never emit (possibly twice, possibly with a damaged count), at chunk boundaries
+            h, cl = self.chunks
+            be = self.seed[:4] in (b"RIFX", b"FORM")
+            parts = [bytes(d[a:b]) for (a, b) in cl]
+            tail = bytes(d[cl[-1][1]:])
+            dic = foreign_chunks(be)
+            for _ in range(r.choice([1, 2, 2, 3])):
+                c = bytearray(r.choice(dic))
+                if r.random() < 0.25 and len(c) > 10:
+                    struct.pack_into(">H" if be else "<H", c, 8, r.choice([0, 1, 2500, 2501, 3000, 0xFFFF]))
+                parts.insert(r.randrange(len(parts) + 1), bytes(c))
             d = bytearray(bytes(d[:h]) + b"".join(parts) + tail)
         elif kind == "magic":
             keep = r.choice([4, 8, 12, 16, 24, 32])
